@@ -250,6 +250,7 @@ fn gen_c02(seed: u64, idx: usize, tier: Tier) -> GitScenario {
         g.long_names = true;
         g.bulk_left = if g.rng.chance(1, 12) { 1 } else { 0 };
         g.big_left = if g.rng.chance(1, 8) { 1 } else { 0 };
+        g.allow_empty = true;
         for _ in 0..n {
             let r = g.rng.below(10);
             if r < 6 || (!have_cp && r < 7) {
@@ -479,8 +480,15 @@ fn gen_c07(seed: u64, idx: usize, _tier: Tier) -> C07Scenario {
                     if g.rng.chance(1, 4) { GitOp::EditOld { path } } else { GitOp::Edit { path } }
                 }
                 _ => {
-                    let d = g.dirs[g.rng.below(g.dirs.len())].clone();
                     let n = g.model.wt.len() + g.model.commits.len() * 100 + edits.len();
+                    // directories that hold untracked files only (git may summarise such a directory as one entry)
+                    let untracked_dirs: BTreeSet<String> = g.model.untracked().iter().filter_map(|p| p.rsplit_once('/').map(|x| x.0.to_string())).filter(|d| !g.model.index.keys().any(|k| k.starts_with(&format!("{}/", d)))).collect();
+                    let d = if !untracked_dirs.is_empty() && g.rng.chance(1, 2) {
+                        let v: Vec<&String> = untracked_dirs.iter().collect();
+                        v[g.rng.below(v.len())].clone()
+                    } else {
+                        g.dirs[g.rng.below(g.dirs.len())].clone()
+                    };
                     GitOp::Create { path: format!("{}/new{}{}", d, n, NAME_POOL[g.rng.below(8)].replace('/', "_")) }
                 }
             };
@@ -748,7 +756,8 @@ fn gen_c19(seed: u64, idx: usize, _tier: Tier) -> GitScenario {
                         _ => GitOp::CpUpdate { id: None, raw_id: None, pending: g.rng.chance(1, 2) },
                     }
                 }
-                8..=10 => GitOp::CpShow,
+                8 | 9 => GitOp::CpShow,
+                10 => GitOp::CpUpdate { id: None, raw_id: Some("\u{0}fail".into()), pending: g.rng.chance(1, 2) },
                 11 => GitOp::CpDelete,
                 12 => GitOp::OutDelete,
                 13 | 14 => GitOp::Analyze { begin: None, end: None },
@@ -775,6 +784,24 @@ fn exec_c19(sc: &GitScenario) -> Outcome {
     let mut deleted_once = false;
     for (i, op) in sc.ops.iter().enumerate() {
         match op {
+            GitOp::CpUpdate { raw_id: Some(r), pending, .. } if r == "\u{0}fail" => {
+                // an update that cannot succeed (its git binary does not exist): the store must not change
+                let mut a = vec!["checkpoint".to_string(), "update".into(), "--git-path".into(), "/nonexistent/git".into()];
+                if *pending {
+                    a.push("--pending".into());
+                }
+                let o = e.w.cli_v(&a);
+                out.sub_evals += 1;
+                out.fault("failing_checkpoint_update_in_history", 1);
+                out.trace.push(format!("{} failing update -> {:?}", i, o.code));
+                if o.code == Some(0) {
+                    // without --pending and with an explicit id nothing needs git; here there is no id, so HEAD must be resolved
+                    out.advisories.push("update with an unusable git succeeded".into());
+                    if let Some(d) = o.json() {
+                        e.cp_doc = Some(d["checkpoint"].clone());
+                    }
+                }
+            }
             GitOp::CpUpdate { id, raw_id, pending } => {
                 let idv = match (id, raw_id) {
                     (Some(n), _) => Some(e.shas[(*n).min(e.shas.len() - 1)].clone()),
